@@ -295,4 +295,45 @@ func c04Weights(c *ctx) {
 		return
 	}
 	parallel(c, n, func(r *rand.Rand, i int) { run(genC04(r, c.thorough()), i) })
+	if c.thorough() && c.Scale >= 1 {
+		c04LongRun(c)
+	}
+}
+
+// c04LongRun: one installed table serving more than 2^32 round-robin picks on a route (a busy instance reaches that in
+// days): the cycles around the 2^32nd pick must hand out exact shares like any other. Plain build of the thorough tier
+// only (about 4.3e9 picks).
+func c04LongRun(c *ctx) {
+	pick := route.Picker["rr"]
+	for _, k := range []int{3, 7} {
+		var b strings.Builder
+		for i := 0; i < k; i++ {
+			fmt.Fprintf(&b, "route add svc long.test/ http://10.8.0.%d:80/\n", i+1)
+		}
+		t, err := newTable(b.String())
+		if err != nil {
+			c.R.Inconcl("long-run table: %v", err)
+			return
+		}
+		r0 := t["long.test"][0]
+		const wrap = uint64(1) << 32
+		// stop a few cycles short of 2^32, at a cycle boundary
+		n := wrap - wrap%uint64(k) - uint64(5*k)
+		for i := uint64(0); i < n; i++ {
+			pick(r0)
+		}
+		for cy := 0; cy < 12; cy++ {
+			got := map[string]int{}
+			for i := 0; i < k; i++ {
+				got[pick(r0).URL.Host]++
+			}
+			c.R.Eval(int64(k))
+			if len(got) != k {
+				c.R.Violate("c04:share-after-2^32-picks", fmt.Sprintf("route with %d equal targets, cycle %d after %d picks on one table: the cycle's %d picks went to %v", k, cy, n, k, got), map[string]any{"targets": k})
+				return
+			}
+		}
+		c.R.Count("long_run_picks", int64(n))
+		c.R.Nontrivial(fmt.Sprintf("long-run-%d", k))
+	}
 }
